@@ -354,10 +354,6 @@ def runBisync (pol : Policy) (cfg : Cfg) : RState → Target → List Entry → 
 
 /-! ### the worker loops with DB selection (rdbReplay / rdbReplayBisync, `TargetDb = −1`, no map) -/
 
-structure WRun where
-  lines : List (List Req × Option Outcome) := []   -- per entry: requests, outcome (none: filtered)
-  tgt   : Target
-
 /-- `rdbReplay` / `rdbReplayBisync`: SELECT when the entry's DB (≠ −1) differs
     from the connection's, then replay; stop at the first error -/
 def runWorker (bisync : Bool) (pol : Policy) (cfg : Cfg) : Nat → RState → Target → List Entry → List (List Req × Outcome)
